@@ -97,6 +97,17 @@ class APCIService(Enum):
     ESCAPE = 0x03C0
 
 
+# A_ADC_Response shares its 4 bit APCI with the 10 bit services defined later in
+# its code space (A_SystemNetworkParameter_*, A_PropertyExt*, A_MemoryExtended_*):
+# a response for one of these channels would carry the APCI of that service.
+_ADC_RESPONSE_SHADOWED_CHANNELS = frozenset(
+    service.value & DPTBinary.APCI_BITMASK
+    for service in APCIService
+    if service.value & 0x03C0 == APCIService.ADC_RESPONSE.value
+    and service is not APCIService.ADC_RESPONSE
+)
+
+
 class APCIUserService(Enum):
     """Enum class for user message APCI services."""
 
@@ -733,6 +744,8 @@ class ADCResponse(APCI):
         """Serialize to KNX/IP raw data."""
         if not 0 <= self.channel <= 63:
             raise ConversionError("Channel out of range.")
+        if self.channel in _ADC_RESPONSE_SHADOWED_CHANNELS:
+            raise ConversionError("Channel is the APCI of another service.")
 
         payload = struct.pack("!BBH", self.channel, self.count, self.value)
 
